@@ -34,8 +34,8 @@ RULE = ("every repository fixture (valid files, past fuzz crashes, password-prot
         "byte / token / structure mutants of those fixtures and of oracle-written valid files in every cross-reference style (classic table, xref stream, "
         "object streams, incremental update, RC4-encrypted); grammar-generated typed documents (page tree with inherited attributes, Type1/TrueType/Type0 fonts, "
         "images under every filter, forms, colour spaces with type 0/2/4 functions, name and number trees, outlines, forms, annotations); a malformed stream "
-        "(truncation at every 1/16th, giant numbers, unbalanced delimiters, empty file, header only); a sample of planted hostile graphs (cycles, depth, boundary "
-        "numbers; the full set belongs to C14).  Each case runs in a child process; judged by status CLEAN (no panic, no abort, no time-out). "
+        "(truncation at every 1/16th, giant numbers, unbalanced delimiters, empty file, header only); every planted hostile graph of the single-style set (cycles, depth, boundary "
+        "numbers in every numeric field, object-stream indices around /N, page counts that sum beyond u32; C14's thorough tier adds the other styles).  Each case runs in a child process; judged by status CLEAN (no panic, no abort, no time-out). "
         "Non-trivial = file of at least 16 bytes; distinct by (options, cache, file bytes)")
 LEVEL_TEXT = "front end proved in the Coq model; typed loading explored by the walk"
 LEVEL_NOTE = ("partial: the theorems cover bytes -> primitives (own proofs), decoded stream data under every modelled filter, object-stream members and xref-stream "
